@@ -108,6 +108,10 @@ func c17Cases(thorough bool) []c17Case {
 		{"hub-and-spokes-last-premise", "hs(X,Y) :- n0(X), X < 1, n0(Y).\n", 1, false},
 		{"divergence-from-large-seed", "up(Y) :- n0(X), Y = fn:plus(X, 1000).\nup(Y) :- up(X), Y = fn:plus(X, 1000).\n", 2, false},
 		{"let-copy-of-large-relation", "w(Y) :- n0(X) |> let Y = fn:plus(X, 1000).\n", 1, false},
+		{"count-of-large-relation", "c(N) :- n0(X) |> do fn:group_by(), let N = fn:count().\n", 1, false},
+		{"sum-per-key-of-large-relation", "s(K,N) :- n0(X), K = fn:div(X, 20) |> do fn:group_by(K), let N = fn:sum(X).\n", 1, false},
+		{"sum-per-parity-single-atom", "g(X,N) :- n0(X) |> do fn:group_by(X), let N = fn:count().\n", 1, false},
+		{"collect-of-large-relation", "c(L) :- n0(X) |> do fn:group_by(), let L = fn:collect_distinct(X).\n", 1, false},
 	} {
 		for _, l := range []int{1, 2, 3, 5, 8} {
 			for _, st := range c17Stores[:2] {
@@ -211,7 +215,7 @@ func c17Run(c c17Case) rt.CaseResult {
 	created := nAtoms - len(edb)
 	var got []string
 	if converges && everr == nil {
-		got, _, _ = mg.Canon(store)
+		got = aggCanon(mg.Atoms(store)) // collected lists are compared as multisets
 	}
 	bound := 4*(c.limit+1)*(c.nrules+1) + 8
 	if created > bound {
@@ -221,7 +225,7 @@ func c17Run(c c17Case) rt.CaseResult {
 	case !converges && everr == nil:
 		viol("divergence-without-error", fmt.Sprintf("the program has an infinite model but evaluation returned nil after creating %d facts", created))
 	case converges && everr == nil:
-		want := ref.DB.Canon()
+		want := aggCanon(ref.DB.Atoms())
 		if missing, extra := mg.Diff(want, got); len(missing)+len(extra) > 0 {
 			if pairs := hashCollisionPartners(ref.DB, missing); pairs != nil && len(extra) == 0 && (c.store == "simple") {
 				w["colliding"] = pairs
@@ -286,5 +290,5 @@ func c17(r *rt.Run) {
 			map[string]any{"program": c.name, "source": c.src, "seed": c.seed, "limit": c.limit, "store": c.store, "opt": c.opt})
 	})
 	r.Finish("pool D: 21 program shapes (counters, guarded counters, list growth, pair nesting, let-transform counters, wide joins, divergence below negation / feeding aggregation, wrapping doubling, mutual counters, fan-out) and pairs of shapes, " +
-		"x 3 seeds (and 7 fan-out shapes over a 60-fact relation x limits {1,2,3,5,8}) x every limit in {1..12,16,32,100} x store kinds (exact count, over-estimating merged store), single shapes also x {temporal store configured (empty / 3 facts), deterministic order}; non-trivial = program with an infinite model; distinct by construction")
+		"x 3 seeds (and 11 fan-out / aggregation shapes over a 60-fact relation x limits {1,2,3,5,8}) x every limit in {1..12,16,32,100} x store kinds (exact count, over-estimating merged store), single shapes also x {temporal store configured (empty / 3 facts), deterministic order}; non-trivial = program with an infinite model; distinct by construction")
 }
